@@ -171,11 +171,12 @@ type Cluster struct {
 	SystemOverride func(c *Conn, table string) message.Message
 	// optional interceptor for every frame (after logging); return true if it handled the frame
 	Intercept      func(c *Conn, hdr *frame.Header, rawBody []byte) bool
-	HoldUnprepared int32                    // when 1, the automatic UNPREPARED answers to EXECUTE are held until ReleaseHeld()
-	OptionsMute    int32                    // when 1, OPTIONS on muted connections are swallowed (always the case); kept for clarity
-	optionsSeen    sync.Map                 // conn id → *int32 count of OPTIONS received
-	ever           sync.Map                 // peer address → *Conn, for every connection ever accepted
-	slowUse        map[string]time.Duration // canonical keyspace → delay before USE is answered
+	HoldUnprepared int32                      // when 1, the automatic UNPREPARED answers to EXECUTE are held until ReleaseHeld()
+	OptionsMute    int32                      // when 1, OPTIONS on muted connections are swallowed (always the case); kept for clarity
+	optionsSeen    sync.Map                   // conn id → *int32 count of OPTIONS received
+	ever           sync.Map                   // peer address → *Conn, for every connection ever accepted
+	slowUse        map[string]time.Duration   // canonical keyspace → delay before USE is answered
+	useErrors      map[string][]message.Error // canonical keyspace → errors that answer the next USEs of it, in order
 }
 
 var clusterSeq int32
@@ -260,6 +261,16 @@ func (c *Cluster) SetSlowUse(k string, d time.Duration) {
 	}
 	c.slowUse[k] = d
 	c.ks[k] = true
+	c.mu.Unlock()
+}
+
+// SetUseErrors makes the next len(errs) USEs of keyspace k (on any connection) be answered with these errors, in order.
+func (c *Cluster) SetUseErrors(k string, errs []message.Error) {
+	c.mu.Lock()
+	if c.useErrors == nil {
+		c.useErrors = map[string][]message.Error{}
+	}
+	c.useErrors[k] = errs
 	c.mu.Unlock()
 }
 
@@ -800,9 +811,18 @@ func (x *Conn) handle(hdr *frame.Header, raw []byte) {
 			c.mu.Lock()
 			ok := c.ks[canon]
 			slow := c.slowUse[canon]
+			var useErr message.Error
+			if q := c.useErrors[canon]; len(q) > 0 {
+				useErr = q[0]
+				c.useErrors[canon] = q[1:]
+			}
 			c.mu.Unlock()
 			if slow > 0 {
 				time.Sleep(slow)
+			}
+			if useErr != nil {
+				x.sendMsg(hdr.StreamId, useErr, Outcome{Name: "UseError"}, "reply")
+				return
 			}
 			if ok {
 				x.smu.Lock()
